@@ -11,7 +11,7 @@ from vt.world import World, WSpec, Abort
 ID = 'C05'
 KIND = 'explorer'
 LEVEL = 'model_checking'
-BUDGET = {'quick': 150, 'thorough': 1500}
+BUDGET = {'quick': 900, 'thorough': 10800}
 RULE = ('a non-exclusive request K (kill with a per-request graceful_timeout above / below the watcher\'s, kill of one '
         'pid, signal, or none) is put in flight; then ONE state-changing request S from {stop, restart, reload, '
         'reload-seq, decr, incr, rm, quit, set, kill} (waiting on/off) is injected at every loop-iteration boundary, and '
